@@ -128,6 +128,33 @@ fn check_addr(c: &Case) -> Verdict {
                 Ok(back) => v.check(back == bytes, &format!("{ID}/FourWordAddress/prefix-round-trip-differs"), || format!("{bytes:?} → '{}' → {back:?}", fw.as_str())),
                 Err(e) => v.fail(format!("{ID}/FourWordAddress/own-words-do-not-decode"), format!("{bytes:?} → '{}': {e}", fw.as_str())),
             }
+            // the same words through the library's other decoders and parsers
+            match saorsa_core::identity::four_words::WordEncoder::decode(&fw) {
+                Ok(back) => v.check(back == bytes, &format!("{ID}/WordEncoder::decode/own-words-decode-to-different-bytes"), || format!("{bytes:?} → '{}' → {back:?}", fw.as_str())),
+                Err(e) => v.fail(format!("{ID}/WordEncoder::decode/own-words-do-not-decode"), format!("'{}': {e}", fw.as_str())),
+            }
+            match FourWordAddress::parse_str(fw.as_str()) {
+                Ok(p) => v.check(p == fw, &format!("{ID}/FourWordAddress::parse_str/own-rendering-parses-to-something-else"), || format!("'{}' → '{}'", fw.as_str(), p.as_str())),
+                Err(e) => v.fail(format!("{ID}/FourWordAddress::parse_str/own-rendering-does-not-parse"), format!("'{}': {e}", fw.as_str())),
+            }
+            let ws = fw.words();
+            if ws.len() == 4 {
+                let arr = [ws[0].clone(), ws[1].clone(), ws[2].clone(), ws[3].clone()];
+                v.check(saorsa_core::fwid::fw_check(arr), &format!("{ID}/fwid::fw_check/rejects-words-the-library-published"), || format!("'{}'", fw.as_str()));
+            } else {
+                v.fail(format!("{ID}/FourWordAddress::words/not-four-words"), format!("'{}'", fw.as_str()));
+            }
+            // handed to the other address component: the same socket address or an error, never another address
+            if let Ok(b) = NetworkAddress::from_four_words(fw.as_str()) {
+                v.check(b.socket_addr() == sa, &format!("{ID}/from_four_words/words-of-FourWordAddress-decode-to-a-different-address"), || format!("{sa} → '{}' → {}", fw.as_str(), b.socket_addr()));
+            }
+            if let Some(w) = a.four_words() {
+                if let Ok(p) = FourWordAddress::parse_str(w) {
+                    if let Ok(back) = p.to_hash_prefix() {
+                        v.check(back == bytes, &format!("{ID}/FourWordAddress/words-of-NetworkAddress-decode-to-different-bytes"), || format!("{sa} → '{w}' → {back:?}"));
+                    }
+                }
+            }
         }
     }
     let boundary = match &c.addr {
@@ -534,7 +561,7 @@ pub fn run(run: &Run) {
     });
     run.set_exhaustive("ipv4_grid");
     let c4 = (v4_any(), variant()).prop_map(|(addr, variant)| Case { addr, variant });
-    run.prop("ipv4_random", run.tier.pick(1000000, 40000000), sh, c4, check_addr);
+    run.prop("ipv4_random", run.tier.pick(600000, 40000000), sh, c4, check_addr);
     let c6 = (v6_classes(), variant()).prop_map(|(addr, variant)| Case { addr, variant });
     run.prop("ipv6", run.tier.pick(150000, 4000000), sh, c6, check_addr);
     let h = (prop_oneof![3 => v4_any(), 1 => v6_classes()], any::<bool>(), any::<bool>(), any::<u16>(), any::<bool>()).prop_map(|(addr, first_display, second_display, second_port, second_other_ip)| Handoff { addr, first_display, second_display, second_port, second_other_ip });
